@@ -83,6 +83,9 @@ def build(cid, spec):
     def obs(point):
         path = POINTS[point][1].replace("CID", cid)
         lines = []
+        if kind == "mod" and model(spec["item_vis"], point):
+            # the same trait reached through the module itself instead of through the re-export
+            lines.append('v.push(("%s:via_mod", ::vrt::visible_trait!(%s::m, Tr)));' % (point, path))
         for n in names:
             lines.append('v.push(("%s:%s", ::vrt::visible_trait!(%s, %s%s)));' % (point, n, path, n, ", generic" if n == "TrImpl" else ""))
         return "pub fn observe_%s(v: &mut ::std::vec::Vec<(&'static str, bool)>) { %s }" % (point, " ".join(lines))
@@ -108,12 +111,18 @@ pub mod %(cid)s_obs { %(o_out)s }
 """ % dict(cid=cid, inv=inv, o_child=obs("child"), o_here=obs("here"), o_sib=obs("sibling"), o_parent=obs("parent"),
            o_root=obs("root"), o_out=obs("outside"))
     ext = " ".join('::vrt::fact("ext:%s", ::vrt::visible_trait!(%s::%s::gp::p, %s%s));' % (n, LIB, cid, n, ", generic" if n == "TrImpl" else "") for n in names)
+    if kind == "mod" and spec["item_vis"] == "pub":
+        ext += ' ::vrt::fact("ext:via_mod", ::vrt::visible_trait!(%s::%s::gp::p::m, Tr));' % (LIB, cid)
     binsrc = "pub fn run() { for (k, v) in %s::%s::observe() { ::vrt::fact(k, v); } %s }\n" % (LIB, cid, ext)
     expect = {}
     eff = spec["req"]
     for point in list(POINTS) + ["ext"]:
         for n in names:
             expect["%s:%s" % (point, n)] = model(eff, point)
+        if kind == "mod" and model(spec["item_vis"], point):
+            # inside the module the trait is declared with the requested visibility, `pub(super)` when none was requested
+            inner = {"": "", "pub": "pub", "pub(crate)": "pub(crate)"}[eff]
+            expect["%s:via_mod" % point] = model(inner, point)
     c = Case(cid, binsrc, meta={"spec": spec, "expect": expect, "names": names, "lib": lib,
                                 "nontrivial": spec["req"] != spec["item_vis"]})
     return c
